@@ -6,7 +6,7 @@ import time, json
 from .. import common as C
 
 PROP = 'C15'
-BOUNDS = {'quick': dict(n=8, iter_n=8), 'thorough': dict(n=10, iter_n=9)}
+BOUNDS = {'quick': dict(n=8, iter_n=8), 'thorough': dict(n=11, iter_n=10)}
 
 
 def run(tier, seed):
